@@ -22,6 +22,9 @@ def wal_str(sexpr):
             txt = '(' + ' '.join(map(wal_str, sexpr)) + ')'
     elif isinstance(sexpr, Symbol):
         txt = sexpr.name
+        if txt.startswith('\\'):
+            # an escaped identifier extends to the next blank
+            txt += ' '
     elif isinstance(sexpr, Macro):
         txt = f'Macro: {sexpr.name}\nArgs: {wal_str(sexpr.args)}\n' + wal_str(sexpr.expression)
     elif isinstance(sexpr, Closure):
